@@ -1,6 +1,7 @@
 package drv
 
 import (
+	"math/big"
 	"encoding/json"
 	"encoding/pem"
 	"math/rand"
@@ -196,6 +197,11 @@ func headerShape(shape, name string, signerDER, rootDER []byte, rng *rand.Rand) 
 		h[name] = []string{"hello%20world"}
 	case "onePem":
 		h[name] = []string{gen.IssuerChainHeader(signerDER)}
+	case "rootOddDp": // the chain's root certificate names CRL distribution points that are no well-formed URIs
+		k := gen.NewKey()
+		_, der := gen.Issue(gen.CertSpec{CN: gen.CNRoot, Serial: big.NewInt(77), NotBefore: time.Now().Add(-time.Hour), NotAfter: time.Now().Add(time.Hour), IsCA: true,
+			CRLDP: []string{"https://crl%zz.example/a", "http://[::1", "://x", "ht\x7ftp://x/ y"}, Pub: &k.PublicKey, SignKey: k})
+		h[name] = []string{gen.IssuerChainHeader(signerDER, der)}
 	case "pemOtherType":
 		h[name] = []string{url.QueryEscape(string(pem.EncodeToMemory(&pem.Block{Type: "PUBLIC KEY", Bytes: signerDER})) + string(gen.PEMCert(rootDER)))}
 	case "truncatedDer":
